@@ -88,7 +88,7 @@ class FindFilter:
 
         else:
             return next(
-                (itm for itm in left if _getitem(itm, key) not in (False, None)),
+                (itm for itm in left if is_truthy(_getitem(itm, key))),
                 None,
             )
 
@@ -125,7 +125,7 @@ class FindIndexFilter(FindFilter):
                 (
                     i
                     for i, itm in enumerate(left)
-                    if _getitem(itm, key) not in (False, None)
+                    if is_truthy(_getitem(itm, key))
                 ),
                 None,
             )
@@ -153,13 +153,9 @@ class HasFilter(FindFilter):
                     return True
 
         elif value is not None and not is_undefined(value):
-            return any(
-                (itm for itm in left if _getitem(itm, key) == value),
-            )
+            return any(_getitem(itm, key) == value for itm in left)
 
         else:
-            return any(
-                (itm for itm in left if _getitem(itm, key) not in (False, None)),
-            )
+            return any(is_truthy(_getitem(itm, key)) for itm in left)
 
         return False
